@@ -437,3 +437,23 @@ def check(run):
     except RaiseEx:
         ok = False
     run.check(ok, 'D5', 'Builder.end_cell' if not ok else 'depth1023-accepted', 'child of depth 1022 -> parent depth 1023 ' + ('accepted' if ok else 'rejected'), wb)
+    # the limit holds at every level: a pruned branch stands for a sub-tree whose depth it stores - a parent whose depth at some level would be 1024 is refused
+    def pruned_child(it_, mask, depths):
+        pc = bin(mask).count('1')
+        bits = format(1, '08b') + format(mask, '08b') + ''.join(format((7 * j + 1) % 256, '08b') * 32 for j in range(pc)) + ''.join(format(d, '016b') for d in depths)
+        return cm.new_cell(it_, cm.tvm_bits(it_, BA([Seg(len(bits), 'k', bits)])), [], 1)
+    for mask, depths, want in ((1, [1023], False), (1, [1022], True), (3, [4, 1023], False), (3, [1023, 4], False), (3, [1022, 1022], True), (5, [1023, 7], False),
+                               (6, [3, 1023], False), (7, [1, 2, 1022], True)):
+        it = Interp(prog)
+        try:
+            kid = pruned_child(it, mask, depths)
+            b = builder(it)
+            call(it, b, 'store_uint', K(1), K(1))
+            call(it, b, 'store_ref', kid)
+            call(it, b, 'end_cell')
+            ok = True
+        except RaiseEx as e:
+            ok = False
+        good = ok == want
+        run.check(good, 'D5', 'Builder.end_cell[depth behind a pruned branch]' if not good else f'pruned-depth[mask={mask},stored={depths}]',
+                  f'ordinary cell over a pruned branch (mask {mask:03b}) storing depths {depths}: ' + ('accepted' if ok else 'rejected') + f' (its depth at some level would be {max(depths) + 1}: must be ' + ('accepted' if want else 'rejected') + ')', wb)
